@@ -1194,3 +1194,11 @@ func specDirectWriteOK(from ast.Format, ctx ast.Context) bool {
 //@   loop 0
 //@     invariant 0 <= i
 //@     decreases 2*len(b) - i
+
+// disassembler.go (C04): abbreviating a text for the listing must not panic,
+// whatever the bytes and the requested size are.
+//@ func disassembleText
+//@   props C04
+//@   loop 0
+//@     invariant 0 <= i && 0 <= p && p <= len(txt)
+//@     decreases size - i
